@@ -54,7 +54,7 @@ def swap_names(text, a, b, quoted=False):
     return re.sub(r"\b(%s|%s)\b" % (a, b), lambda m: b if m.group(1) == a else a, text)
 
 
-STRING_BODIES = ['%s\\"', '\\"%s', 'a\\"%s\\\\', '%s\\\\', "%s'", '\\"', "'%s'", "''", "'", " %s ", "%s#", "//%s", "/*%s*/"]
+STRING_BODIES = ['%s\\"', '\\"%s', 'a\\"%s\\\\', '%s\\\\', "%s'", '\\"', "'%s'", "''", "'", " %s ", "%s#", "//%s", "/*%s*/", "", "%s\t%s", "\t", "0", "None"]
 
 
 def string_twin(text, exp, k):
@@ -67,7 +67,7 @@ def string_twin(text, exp, k):
         return None
     old = lits[k % len(lits)]
     body = STRING_BODIES[(k // 5) % len(STRING_BODIES)]
-    new = body % old if "%s" in body else body
+    new = body.replace("%s", old)
     dumped = json.dumps(exp)
     if json.dumps(old) not in dumped:
         return None
@@ -167,7 +167,7 @@ def rand_decls(rng):
             name = "En%d" % i
             k = rng.randint(1, 4)
             decls.append({"kind": "enum", "name": name,
-                          "items": [{"name": "V%d_%d" % (i, j), "value": rng.choice([j, 10 * j + 1, 255 - j])} for j in range(k)]})
+                          "items": [{"name": "V%d_%d" % (i, j), "value": rng.choice([j, 10 * j + 1, 255 - j, -1 - j, -(2 ** 31) + 1 + j, 2 ** 31 - 1 - j])} for j in range(k)]})
             enums.append(name)
         elif kind == "struct" or not structs:
             name = "St%d" % i
@@ -306,6 +306,13 @@ def run_c07(tier, seed):
                     if d4:
                         chk.violation("parser:tree-differs:string-contents:%s" % diff_class(d4),
                                       {"mode": "G", "text": tw[0], "literal": tw[2], "at": d4[0], "expected": d4[1], "observed": d4[2]})
+                # and the same text read from a FILE: both entry points give the same tree
+                st5, got5 = parse_file(tw[0], chk.workdir)
+                chk.count(1, traces=1)
+                if st5 != "ok" or first_diff(tw[1], got5):
+                    chk.violation("parser.get_fcp:differs-from-string-entry:string-contents",
+                                  {"mode": "G", "text": tw[0], "literal": tw[2], "status": st5,
+                                   "observed": got5 if st5 != "ok" else first_diff(tw[1], got5)})
         if ci % 10 == 0:
             st2, got2 = parse_file(c["text"], chk.workdir)
             chk.count(1, traces=1)
